@@ -8,6 +8,8 @@ import (
 	"encoding/json"
 	"errors"
 	"fmt"
+	"github.com/cloudwego/eino/callbacks"
+	"github.com/cloudwego/eino/components"
 	"io"
 	"sort"
 	"strings"
@@ -52,6 +54,9 @@ type aenv struct {
 	faults   map[string]int
 	probes   map[string]int
 	problems []core.Violation
+	// tagOutputs: tools append the tag of the calling run to their answers
+	tagOutputs bool
+	cbEvents   []cbEvent // what a globally installed callback handler saw
 	// model
 	modelCalls map[string]int
 	modelSeen  map[string][]string // tag -> canonical input of each call
@@ -63,6 +68,43 @@ func newEnv(s *kernel.Sim) *aenv {
 
 func (e *aenv) nextSeq() int { e.seq++; return e.seq }
 
+type cbEvent struct {
+	Timing, Name string
+	Comp         components.Component
+}
+
+// globalHandler records the callbacks a handler installed globally (and nowhere else) gets.
+func (e *aenv) globalHandler() callbacks.Handler {
+	rec := func(timing string, info *callbacks.RunInfo) {
+		if info != nil {
+			e.cbEvents = append(e.cbEvents, cbEvent{timing, info.Name, info.Component})
+		}
+	}
+	return callbacks.NewHandlerBuilder().
+		OnStartFn(func(ctx context.Context, info *callbacks.RunInfo, in callbacks.CallbackInput) context.Context {
+			rec("start", info)
+			return ctx
+		}).
+		OnEndFn(func(ctx context.Context, info *callbacks.RunInfo, out callbacks.CallbackOutput) context.Context {
+			rec("end", info)
+			return ctx
+		}).
+		OnErrorFn(func(ctx context.Context, info *callbacks.RunInfo, err error) context.Context {
+			rec("end", info)
+			return ctx
+		}).
+		OnStartWithStreamInputFn(func(ctx context.Context, info *callbacks.RunInfo, in *schema.StreamReader[callbacks.CallbackInput]) context.Context {
+			in.Close()
+			rec("start", info)
+			return ctx
+		}).
+		OnEndWithStreamOutputFn(func(ctx context.Context, info *callbacks.RunInfo, out *schema.StreamReader[callbacks.CallbackOutput]) context.Context {
+			out.Close()
+			rec("end", info)
+			return ctx
+		}).Build()
+}
+
 // toolSpec is the plan of one tool.
 type toolSpec struct {
 	Name   string
@@ -72,6 +114,8 @@ type toolSpec struct {
 	Pipe   bool
 	// Fail: args -> 1 error, 2 panic, 3 error item mid-stream (streamable tools)
 	Fail map[string]int
+	// Empty: arguments that are answered with the empty string
+	Empty map[string]bool
 }
 
 type baseTool struct {
@@ -79,12 +123,24 @@ type baseTool struct {
 	env  *aenv
 }
 
-func toolOutput(name, args string) string { return name + "(" + args + ")" }
+// toolOutput: what a tool answers. Some (tool, arguments) pairs are answered with the empty
+// string; suffix distinguishes the answers given to different concurrent runs.
+func toolOutput(sp *toolSpec, args, suffix string) string {
+	if sp.Empty[args] {
+		return ""
+	}
+	return sp.Name + "(" + args + ")" + suffix
+}
 
 // expectedContent is the content of the tool message the tools node must produce for a call:
 // the tool's output; tools built with components/tool/utils marshal their result to JSON.
-func expectedContent(specs []*toolSpec, name, args string) string {
-	out := toolOutput(name, args)
+func expectedContent(specs []*toolSpec, name, args, suffix string) string {
+	out := name + "(" + args + ")" + suffix
+	for _, sp := range specs {
+		if sp.Name == name {
+			out = toolOutput(sp, args, suffix)
+		}
+	}
 	for _, sp := range specs {
 		if sp.Name == name && sp.Kind == 3 {
 			b, _ := json.Marshal(out)
@@ -118,7 +174,11 @@ func (b *baseTool) run(ctx context.Context, args string, streaming bool) (string
 		e.faults["tool_panic"]++
 		panic(fmt.Sprintf("PANIC<%s/%s>", b.spec.Name, args))
 	}
-	return toolOutput(b.spec.Name, args), nil
+	suffix := ""
+	if e.tagOutputs {
+		suffix = "@" + tagOf(ctx)
+	}
+	return toolOutput(b.spec, args, suffix), nil
 }
 
 func cut(v string, c int) []string {
@@ -227,7 +287,7 @@ func (e *aenv) build(specs []*toolSpec) []tool.BaseTool {
 func drawTools(t *kernel.Tape, n int) []*toolSpec {
 	var specs []*toolSpec
 	for i := 0; i < n; i++ {
-		specs = append(specs, &toolSpec{Name: fmt.Sprintf("t%d", i), Kind: t.Plan(4), Yields: t.Plan(3), Cut: t.Plan(4), Pipe: t.PlanBool(50), Fail: map[string]int{}})
+		specs = append(specs, &toolSpec{Name: fmt.Sprintf("t%d", i), Kind: t.Plan(4), Yields: t.Plan(3), Cut: t.Plan(4), Pipe: t.PlanBool(50), Fail: map[string]int{}, Empty: map[string]bool{}})
 	}
 	return specs
 }
@@ -316,9 +376,22 @@ func runC17(t *kernel.Tape, opt core.Opts) *core.Outcome {
 		}
 		failing[k] = kind
 	}
+	// some calls are answered with the empty string
+	var empties []int
+	for k, c := range calls {
+		if _, f := failing[k]; !f && c.Name != "nosuchtool" && t.PlanBool(8) {
+			for _, sp := range specs {
+				if sp.Name == c.Name && sp.Fail[c.Args] == 0 {
+					sp.Empty[c.Args] = true
+					empties = append(empties, k)
+				}
+			}
+		}
+	}
 	inGraph := t.PlanBool(50)
 	stream := t.PlanBool(50)
-	o.Sample = fmt.Sprintf("tools=%s calls=%v unknownHandler=%v failing=%v graph=%v stream=%v", specsStr(specs), calls, handler, failing, inGraph, stream)
+	globalCB := t.PlanBool(40) // a callback handler installed globally only
+	o.Sample = fmt.Sprintf("tools=%s calls=%v unknownHandler=%v failing=%v empty=%v graph=%v stream=%v globalCB=%v", specsStr(specs), calls, handler, failing, empties, inGraph, stream, globalCB)
 	o.PlanHash = core.HashString(o.Sample)
 
 	s := kernel.New(t, 100)
@@ -331,6 +404,10 @@ func runC17(t *kernel.Tape, opt core.Opts) *core.Outcome {
 			env.probes["unknown_tool_handler_called"]++
 			return "unk(" + name + "," + input + ")", nil
 		}
+	}
+	if globalCB {
+		callbacks.InitCallbackHandlers([]callbacks.Handler{env.globalHandler()})
+		defer callbacks.InitCallbackHandlers(nil)
 	}
 	ctx := withTag(context.Background(), "r0")
 	tn, err := compose.NewToolNode(ctx, conf)
@@ -440,7 +517,7 @@ func runC17(t *kernel.Tape, opt core.Opts) *core.Outcome {
 		}
 		var want []string
 		for _, c := range calls {
-			content := expectedContent(specs, c.Name, c.Args)
+			content := expectedContent(specs, c.Name, c.Args, "")
 			if c.Name == "nosuchtool" {
 				content = "unk(" + c.Name + "," + c.Args + ")"
 			}
@@ -452,6 +529,31 @@ func runC17(t *kernel.Tape, opt core.Opts) *core.Outcome {
 		}
 		if strings.Join(want, " ; ") != strings.Join(got, " ; ") {
 			o.Violate("C17/wrong-answers", fmt.Sprintf("expected %v, got %v", want, got))
+		}
+		if globalCB && inGraph { // (a direct call of the node carries no callback manager)
+			// every tool call is an execution unit of its own: the global handler gets one start and
+			// one end per call, under the tool's name
+			calledN := map[string]int{}
+			for _, c := range env.calls {
+				calledN[c.Name]++
+			}
+			starts, ends := map[string]int{}, map[string]int{}
+			for _, ev := range env.cbEvents {
+				if ev.Comp != components.ComponentOfTool {
+					continue
+				}
+				if ev.Timing == "start" {
+					starts[ev.Name]++
+				} else {
+					ends[ev.Name]++
+				}
+			}
+			for name, n := range calledN {
+				if starts[name] != n || ends[name] != n {
+					o.Violate("C17/tool-callbacks-missing", fmt.Sprintf("tool %s was called %d time(s); the globally installed handler saw %d start and %d end callbacks for it (all events: %v)", name, n, starts[name], ends[name], env.cbEvents))
+				}
+			}
+			o.Stat("probe.global_handler_tool_events", len(env.cbEvents))
 		}
 	}
 	// every call of an existing tool was executed exactly once, with its own call id
@@ -521,7 +623,7 @@ var agentStub = []string{"tools (harness tasks that yield, stream in chunks, fai
 func init() {
 	core.Register(&core.Profile{
 		RaceQuick: 200, RaceThorough: 3000, ID: "C17", Engine: "agentsim", Quick: 4000, Thorough: 100000, ThoroughSeeds: 3, Run: runC17,
-		Rule: "each run draws 2-4 tools (invokable-only, streamable-only, both; yields, chunkings), an assistant message with 1-5 calls (repeated tools, unknown names), an unknown-tool handler or none, 0-2 failing calls (error, panic, error item mid-stream), direct call or inside a graph, Invoke or Stream, and one schedule (tool completion order); oracle: N answers in call order with the right ids and outputs, concat(Stream)=Invoke, failures and unknown names reported, every call executed exactly once with its own call id",
+		Rule: "each run draws 2-4 tools (invokable-only, streamable-only, both; yields, chunkings), an assistant message with 1-5 calls (repeated tools, unknown names), an unknown-tool handler or none, 0-2 failing calls (error, panic, error item mid-stream), direct call or inside a graph, Invoke or Stream, and one schedule (tool completion order); oracle: N answers in call order with the right ids and outputs, concat(Stream)=Invoke, failures and unknown names reported, every call executed exactly once with its own call id; tools built with utils.InferTool (pointer request type, used after yielding); calls answered with the empty string; in 2 of 5 runs a callback handler installed globally only, which must see one start and one end per tool call when the node runs inside a graph",
 		Real: agentReal, Stub: agentStub,
 		Faults: []string{"tool completion order", "tool error", "tool panic", "error item mid-stream", "unknown tool name"},
 	})
